@@ -10,7 +10,7 @@ TRUSTED_BASE = [
 ]
 
 # commits in /repo that add hooks guarded by --cfg jrsonnet_verif
-HOOK_COMMITS = ["7bb8375 verif hook: ObjValue::verif_core_shape (cfg jrsonnet_verif)", "25806a5 verif hook: read-only interner pool/refcount accessors (cfg jrsonnet_verif)", "2193d5d verif hook: read-only stack depth/limit accessors (cfg jrsonnet_verif)"]
+HOOK_COMMITS = ["7bb8375 verif hook: ObjValue::verif_core_shape (cfg jrsonnet_verif)", "25806a5 verif hook: read-only interner pool/refcount accessors (cfg jrsonnet_verif)", "2193d5d verif hook: read-only stack depth/limit accessors (cfg jrsonnet_verif)", "11a42ef verif hook: read-only record of the rowan parser event list and lexemes (cfg jrsonnet_verif)"]
 # properties not claimed, with the reason
 NOT_APPLICABLE = {}
 
